@@ -52,6 +52,8 @@ type tracedRenderer struct {
 	n   int
 	// trim: forget old rasteriser calls (long runs); off when the whole log is needed afterwards
 	trim bool
+	// dead: a call panicked; the rest of the program is not run
+	dead bool
 }
 
 // viaRasterLogger makes the next traced Renderers talk to their recording rasteriser through
@@ -110,12 +112,30 @@ func newTracedRenderer(w *Writer, id string, rect image.Rectangle) *tracedRender
 func (t *tracedRenderer) do(c Call) { t.doHint(c, nil) }
 
 func (t *tracedRenderer) doHint(c Call, hint *arcHint) {
+	if t.dead {
+		return
+	}
 	before := t.rd.VerifState()
 	n0 := len(t.z.Calls)
-	if t.via != nil {
-		apply(t.via, &c)
-	} else {
-		apply(t.rd, &c)
+	// a panic inside the Renderer is an observation like any other (the rasteriser behind it is a recorder, which never
+	// panics): it is reported as an event of its own, the trace specification rejects it, the program stops there
+	if msg := func() (msg string) {
+		defer func() {
+			if r := recover(); r != nil {
+				msg = fmt.Sprint(r)
+			}
+		}()
+		if t.via != nil {
+			apply(t.via, &c)
+		} else {
+			apply(t.rd, &c)
+		}
+		return ""
+	}(); msg != "" {
+		t.dead = true
+		t.w.Emit(map[string]interface{}{"ev": "panic", "call": c, "msg": msg})
+		t.n++
+		return
 	}
 	after := t.rd.VerifState()
 	ev := rendCall{Ev: "call", Call: c, Rz: append([]RCall{}, t.z.Calls[n0:]...), Sel: [2]int{int(after.CSel), int(after.NSel)},
@@ -139,6 +159,17 @@ func (t *tracedRenderer) doHint(c Call, hint *arcHint) {
 	if t.trim && len(t.z.Calls) > 4096 {
 		t.z.Calls = t.z.Calls[:0]
 	}
+}
+
+// safeApply applies c and reports whether the call came back without panicking.
+func safeApply(d ivg.Destination, c *Call) (ok bool) {
+	defer func() {
+		if recover() != nil {
+			ok = false
+		}
+	}()
+	apply(d, c)
+	return true
 }
 
 // ---- lattice configurations -----------------------------------------------------------------
@@ -338,6 +369,85 @@ func driveRend(args []string) error {
 			viaRasterLogger = false
 			viaDestLogger = 0
 			if fam == "geometry" {
+				// far-out absolute points (round 10): zoomed-in renderings whose outline points map tens of thousands of pixels
+				// outside the target; judged statelessly (TV_Renderer: TVFar) because the machine's integers end at 2^15 px
+				{
+					type farEv struct {
+						Ev   string   `json:"ev"`
+						Vb   []F      `json:"vb"`
+						Rect [4]int   `json:"rect"`
+						Op   string   `json:"op"`
+						Pin  [][2]int `json:"pin"`
+						Args []F      `json:"args"`
+						Out  [][2]F   `json:"out"`
+					}
+					frng := newRand(209)
+					for ci, cfg := range []rendCfg{
+						{[4]float32{-4, -4, 4, 4}, image.Rect(0, 0, 1024, 1024)},
+						{[4]float32{0, 0, 8, 4}, image.Rect(0, 0, 1024, 256)},
+						{[4]float32{-1, -1, 1, 1}, image.Rect(3, 5, 515, 517)},
+						{[4]float32{-32, -32, 32, 32}, image.Rect(0, 0, 4096, 4096)},
+						{[4]float32{-32, -32, 32, 32}, image.Rect(0, 0, 64, 64)}} {
+						w := sh.Next()
+						z := &RecRaster{}
+						rd := &render.Renderer{}
+						rd.SetRasterizer(z, cfg.rect)
+						w.Emit(rendSrc{Ev: "rsrc", ID: fmt.Sprintf("far/%d", ci), Rect: [4]int{cfg.rect.Min.X, cfg.rect.Min.Y, cfg.rect.Max.X, cfg.rect.Max.Y}})
+						rd.Reset(ivg.ViewBox{MinX: cfg.vb[0], MinY: cfg.vb[1], MaxX: cfg.vb[2], MaxY: cfg.vb[3]}, ivg.DefaultPalette)
+						reach := []int{600, 600, 200, 1000, 1000}[ci] * 64
+						pt := func() [2]int {
+							k := func() int {
+								v := frng.Intn(2*reach+1) - reach
+								if frng.Intn(4) == 0 { // whole units, and the very edge of the reach
+									v = v / 64 * 64
+								}
+								if frng.Intn(16) == 0 {
+									v = []int{reach, -reach}[frng.Intn(2)]
+								}
+								return v
+							}
+							return [2]int{k(), k()}
+						}
+						for i := 0; i < 120; i++ {
+							op := []string{"AbsLineTo", "AbsQuadTo", "AbsCubeTo", "ClosePathAbsMoveTo", "AbsLineTo"}[frng.Intn(5)]
+							if i == 0 {
+								op = "StartPath"
+							}
+							np := map[string]int{"StartPath": 1, "AbsLineTo": 1, "ClosePathAbsMoveTo": 1, "AbsQuadTo": 2, "AbsCubeTo": 3}[op]
+							var pin [][2]int
+							var a []float32
+							for j := 0; j < np; j++ {
+								q := pt()
+								pin = append(pin, q)
+								a = append(a, float32(q[0])/64, float32(q[1])/64)
+							}
+							n0 := len(z.Calls)
+							switch op {
+							case "StartPath":
+								rd.StartPath(0, a[0], a[1])
+							case "AbsLineTo":
+								rd.AbsLineTo(a[0], a[1])
+							case "ClosePathAbsMoveTo":
+								rd.ClosePathAbsMoveTo(a[0], a[1])
+							case "AbsQuadTo":
+								rd.AbsQuadTo(a[0], a[1], a[2], a[3])
+							case "AbsCubeTo":
+								rd.AbsCubeTo(a[0], a[1], a[2], a[3], a[4], a[5])
+							}
+							ev := farEv{Ev: "far", Vb: fs(cfg.vb[0], cfg.vb[1], cfg.vb[2], cfg.vb[3]), Rect: [4]int{cfg.rect.Min.X, cfg.rect.Min.Y, cfg.rect.Max.X, cfg.rect.Max.Y},
+								Op: op, Pin: pin, Args: fs(a...), Out: [][2]F{}}
+							if len(z.Calls) > n0 {
+								last := z.Calls[len(z.Calls)-1]
+								for j := 0; j+1 < len(last.F); j += 2 {
+									ev.Out = append(ev.Out, [2]F{last.F[j], last.F[j+1]})
+								}
+							}
+							w.Emit(ev)
+							stats["geometry.far_points"] += np
+						}
+						z.Calls = nil
+					}
+				}
 				// a zero-radius arc (a straight line) between a curve and a smooth operation of the same degree: the smooth
 				// operation starts from the pen, the curve's control point is forgotten
 				for ci, cfg := range []rendCfg{cfgs[0], cfgs[7]} {
@@ -688,7 +798,9 @@ func driveRend(args []string) error {
 							continue
 						}
 						c := b[k]
-						apply(&fr, &c)
+						if !safeApply(&fr, &c) {
+							break // the traced run reported the panic already
+						}
 					}
 					t.w.Emit(map[string]interface{}{"ev": "same", "what": "rasteriser log of B on a reused Renderer vs on a fresh one",
 						"a": rasterDigest(t.z.Calls[n0:]), "b": rasterDigest(fz.Calls)})
@@ -765,8 +877,17 @@ func genVMProgram(r *rand.Rand, vb [4]float32, height int) []Call {
 				prog = append(prog, mkCall("SetLOD", pr[0], pr[1]))
 			case 8:
 				// a gradient: stops at base b
-				b := []int{0, 10, 58, 60, 63, r.Intn(64)}[r.Intn(6)]
+				b := []int{0, 10, 58, 60, 63, r.Intn(64), 1 + r.Intn(5), 1 + r.Intn(5)}[r.Intn(8)] // 1..5: the matrix block wraps from NREG[63] to NREG[0]
 				ns := []int{0, 1, 2, 3, 5, 9, 58, 59, 60, 63}[r.Intn(10)]
+				if r.Intn(2) == 0 {
+					// the six matrix registers below NBASE, written through an incrementing selector (round 10)
+					prog = append(prog, sel("SetNSel", (b-6)&63))
+					for k := 0; k < 6; k++ {
+						mm := mkCall("SetNReg", []float32{0.125, -0.5, 0.25, 1, -1, 2, 0.0625, 0, -0.25, 0.5}[r.Intn(10)])
+						mm.Incr = 1
+						prog = append(prog, mm)
+					}
+				}
 				prog = append(prog, sel("SetCSel", b), sel("SetNSel", b))
 				off := 0
 				for s := 0; s < ns; s++ {
